@@ -1,8 +1,27 @@
-From Coq Require Import NArith List Bool String.
+(* Property C32 -- "XML configuration parser preserves element trees".
+   Only theorem statements: each is closed by [exact] of a lemma proved in C32/XmlProofs.v or
+   C32/XmlTreeProofs.v and followed by Print Assumptions.
+   Model: C32/Xml.v (XmlElement's constructor = loop/step/finish/parse_doc, ParseAttrs = parse_attrs,
+   InplaceXlate = xlate, find = find_all/find_first); printer, reach and the tree classes: C32/Spec_C32.v. *)
+From Coq Require Import String.
+From Coq Require Import NArith List Bool.
 From F8 Require Import C32.XmlBase C32.Xml C32.Spec_C32 C32.XmlProofs.
 Import ListNotations.
 Local Open Scope N_scope.
 
+(* ParseAttrs inverts the attribute printer: for every attribute list with pairwise different keys,
+   keys over the name alphabet [A-Za-z0-9_.:-]+ other than "docpath", and values over ALL bytes except
+   NUL in which no '&' is followed by something reference-shaped (name; #digits; #xhex;), parsing
+   ` k1="escaped v1" k2="escaped v2" ...' returns exactly that list (same keys, same order, references
+   decoded back to the values), whatever the current line number. *)
+Theorem c32_attrs_partial : forall (line : N) (m : list (str * str)),
+  attrs_ok m = true -> parse_attrs line (print_attrs m) = Ok m.
+Proof. exact c32_attrs_partial_lemma. Qed.
+Print Assumptions c32_attrs_partial.
+
+(* F35, the property is violated: InplaceXlate searches again from the start after every replacement,
+   so decoded text is decoded again.  The 4-character value  &lt;  is printed  &amp;lt;  and comes back
+   as the single character  <  -- in the decoder alone and through the whole parser (text and attribute). *)
 Theorem c32_entity_refuted :
   let v := bs "&lt;" in
   escape v = bs "&amp;lt;" /\ xlate (escape v) = bs "<" /\
@@ -10,3 +29,22 @@ Theorem c32_entity_refuted :
     Ok (El (bs "a") None (Some (bs "<")) [(bs "k", bs "<")] []).
 Proof. exact c32_entity_refuted_lemma. Qed.
 Print Assumptions c32_entity_refuted.
+
+(* ... and holds exactly outside that region: every text without NUL whose '&'s are not followed by
+   something reference-shaped survives escaping + decoding (all of & < > and both quotes included). *)
+Theorem c32_entity_single_partial : forall v : str,
+  value_ok v = true -> xlate (escape v) = v.
+Proof. exact c32_entity_single_partial_lemma. Qed.
+Print Assumptions c32_entity_single_partial.
+
+(* find: for every tree whose tags are non-empty and free of '/' (all the parser ever builds, and all
+   trees of c32_tree_partial), every start element, EVERY path string and optional attribute test, the
+   all-matches form returns exactly the elements reachable by the path -- its '/'-separated components
+   name the start element (or the root after a leading "//") and then one child per component -- in
+   document order, and the first-match form returns the first of them. *)
+Theorem c32_find_exact : forall (root cur : el) (a : addr) (path : str) (q : option (str * str)),
+  find_tags_ok root = true -> find_tags_ok cur = true ->
+  find_all (find_fuel path) root cur a path q = reach_path root cur a path q /\
+  find_first (find_fuel path) root cur a path q = hd_error (reach_path root cur a path q).
+Proof. exact c32_find_exact_lemma. Qed.
+Print Assumptions c32_find_exact.
